@@ -516,4 +516,41 @@ Theorem current_is_last_write ops : hist_ok ops ->
   forall x, In x (w_recs (fst (run_ops c ops))) -> last_opt (filter (by_run (r_run x)) (w_hist (fst (run_ops c ops)))) = Some x.
 Proof. intros H. apply (hv_last _ (proj1 (hist_versions c ops H))). Qed.
 
+(* ---------- the version counts the writes ---------- *)
+Lemma last_opt_filter_split {A} (f : A -> bool) (l : list A) (p : A) :
+  last_opt (filter f l) = Some p -> exists l1 l2, l = l1 ++ p :: l2 /\ filter f l2 = [] /\ f p = true.
+Proof.
+  induction l as [|a l IH] using rev_ind; cbn; [discriminate|].
+  rewrite filter_app. cbn. destruct (f a) eqn:E.
+  - rewrite last_opt_snoc. intros H. inversion H; subst. exists l, []. auto.
+  - rewrite app_nil_r. intros H. destruct (IH H) as (l1 & l2 & -> & F & Hp). exists l1, (l2 ++ [a]). rewrite <- app_assoc. cbn.
+    split; [reflexivity|]. split; [|exact Hp]. rewrite filter_app, F. cbn. now rewrite E.
+Qed.
+
+Lemma last_opt_none {A} (l : list A) : last_opt l = None -> l = [].
+Proof.
+  induction l as [|a l IH]; [reflexivity|]. destruct l as [|b l']; [discriminate|]. intros H.
+  change (last_opt (b :: l') = None) in H. apply IH in H. discriminate.
+Qed.
+
+(* in the history of committed writes the j-th write of a run (counting from 0) carries version j + 1 *)
+Theorem version_counts_the_writes ops : hist_ok ops ->
+  forall h1 x h2, w_hist (fst (run_ops c ops)) = h1 ++ x :: h2 ->
+  r_ver x = Z.of_nat (length (filter (by_run (r_run x)) h1)) + 1.
+Proof.
+  intros H h1. remember (length h1) as n eqn:En. revert h1 En.
+  induction n as [n IH] using lt_wf_ind. intros h1 En x h2 E.
+  destruct (writes_are_announced c ops H h1 x h2 E) as (a & Hin). unfold lastrun in Hin.
+  destruct (last_opt (filter (by_run (r_run x)) h1)) as [p|] eqn:L.
+  - pose proof (store_some_facts c ops H p x a Hin) as F.
+    destruct (last_opt_filter_split _ _ _ L) as (l1 & l2 & -> & F2 & Hp). unfold by_run in Hp. apply N.eqb_eq in Hp.
+    assert (Hlt : (length l1 < n)%nat) by (subst n; rewrite app_length; cbn; lia).
+    assert (E' : w_hist (fst (run_ops c ops)) = l1 ++ p :: (l2 ++ x :: h2)) by (rewrite E, <- app_assoc; reflexivity).
+    pose proof (IH _ Hlt l1 eq_refl p _ E') as Vp. rewrite Hp in Vp.
+    rewrite filter_app. cbn [filter]. unfold by_run at 2. rewrite Hp, N.eqb_refl. cbn [app]. rewrite F2.
+    rewrite app_length. cbn [length]. rewrite (sf_ver _ _ _ F), Vp. lia.
+  - destruct (store_new_facts c ops H x a Hin) as (V & _).
+    apply last_opt_none in L. rewrite L. cbn. lia.
+Qed.
+
 End D.
